@@ -1,6 +1,7 @@
 package props
 
 import (
+	"golang.org/x/net/html"
 	"reflect"
 	"testing"
 )
@@ -93,5 +94,18 @@ func TestSchemeOfExamples(t *testing.T) {
 		if got := hasAuthority(in); got != want {
 			t.Errorf("hasAuthority(%q) = %v, want %v", in, got, want)
 		}
+	}
+}
+
+func TestSolidusIsSelfClosing(t *testing.T) {
+	for in, want := range map[string]bool{"<br/>": true, "<br />": true, "<a b/>": true, "<a b=c/>": false, "<a b=c />": true, `<a b="c/"/>`: true, `<a b="c"/>`: true, "<a b=/>": false, "<a b='x'/>": true,
+		"<a b=c//>": false, "<a/b/>": true, "<a b = c/>": false, "<a b= />": false, `<a b="x"c=d/>`: false, `<a b=c"/>`: false, "<a ==/>": false, "<a =/>": true, "<a/ >": false, "<a b>": false, "<object data=x/>": false, `<a b="c" / >`: false} {
+		if got := solidusIsSelfClosing(in); got != want {
+			t.Errorf("solidusIsSelfClosing(%q) = %v, want %v", in, got, want)
+		}
+	}
+	tk := tokenize("<object data=x/>s</object><img src=/a/ /><b/>")
+	if len(tk) != 5 || tk[0].Type != html.StartTagToken || tk[3].Type != html.SelfClosingTagToken || tk[4].Type != html.SelfClosingTagToken {
+		t.Errorf("tokenize: %+v", tk)
 	}
 }
